@@ -5,9 +5,9 @@
 # Writes <seed-dir>/confirm.json.  Nothing under /repo or /verif is touched.
 set -u
 SEED=$(readlink -f "$1"); NAME=$(basename $SEED)
-W=/tmp/seedconfirm/repo
-mkdir -p /tmp/seedconfirm
-exec 8>/tmp/seedconfirm/.lock; flock 8
+CB=${SEEDCONFIRM_BASE:-/tmp/seedconfirm}; W=$CB/repo
+mkdir -p $CB
+exec 8>$CB/.lock; flock 8
 if [ ! -d $W ]; then git -C /repo worktree add -q --detach $W HEAD || exit 2; fi
 git -C $W checkout -q --detach $(git -C /repo rev-parse HEAD)
 git -C $W checkout -q -- . ; git -C $W clean -fdq -e target
@@ -23,10 +23,10 @@ cp "$SEED/demo.rs" $W/tests/$DEMO.rs
 export CARGO_NET_OFFLINE=true
 BASE_OUT=$(/verif/tools/baseline.sh $W 2>&1 | head -3)
 BASE_OK=false; echo "$BASE_OUT" | grep -q "668/668 stable tests pass" && BASE_OK=true
-(cd $W && cargo nextest run --offline --no-fail-fast --test $DEMO > /tmp/seedconfirm/$NAME.with.log 2>&1); RC_WITH=$?
+(cd $W && cargo nextest run --offline --no-fail-fast --test $DEMO > $CB/$NAME.with.log 2>&1); RC_WITH=$?
 git -C $W checkout -q -- .   # revert the change, keep the demo
-(cd $W && cargo nextest run --offline --no-fail-fast --test $DEMO > /tmp/seedconfirm/$NAME.without.log 2>&1); RC_WITHOUT=$?
+(cd $W && cargo nextest run --offline --no-fail-fast --test $DEMO > $CB/$NAME.without.log 2>&1); RC_WITHOUT=$?
 rm -f $W/tests/$DEMO.rs
-FAILS_WITH=false; [ $RC_WITH -ne 0 ] && grep -qE "FAIL|failed|panicked|SIGABRT|SIGSEGV" /tmp/seedconfirm/$NAME.with.log && FAILS_WITH=true
+FAILS_WITH=false; [ $RC_WITH -ne 0 ] && grep -qE "FAIL|failed|panicked|SIGABRT|SIGSEGV" $CB/$NAME.with.log && FAILS_WITH=true
 PASSES_WITHOUT=false; [ $RC_WITHOUT -eq 0 ] && PASSES_WITHOUT=true
 res applies=true baseline_668_with_change=$BASE_OK demo_fails_with_change=$FAILS_WITH demo_passes_without_change=$PASSES_WITHOUT "head=$(git -C /repo rev-parse --short HEAD)" "baseline_line=$(echo "$BASE_OUT" | head -1)"
